@@ -123,6 +123,150 @@ class Variant:
     __slots__ = ("entry", "an", "names", "role", "kind", "to", "variant", "scale", "sS0", "sR0", "sS", "sR", "outcome", "res", "exc", "msg", "base", "mag", "atoms", "stored")
 
 
+def build_isos(v):
+    """the fixtures of scenario v, with the isotherm(s) of v.role brought to v.sS / v.sR"""
+    isos = []
+    for i, n in enumerate(v.names):
+        tgt, start, is_changed = (v.sS, v.sS0, v.role in ("S", "A")) if i == 0 else (v.sR, v.sR0, v.role in ("R", "A"))
+        f = fixture(n)
+        if v.variant == "rep" and is_changed:
+            own = labels_of(f)
+            chg = {k: tgt[k] for k in tgt if tgt[k] != start[k]}
+            f = to_rep(f, dict(own, **chg))
+            if v.kind == "product":      # ... and exported / re-imported in the new representation
+                f = json_roundtrip(f)
+        elif v.variant == "json":
+            f = json_roundtrip(f)
+        elif v.variant == "scale" and is_changed:
+            f = clone(f, scale=v.scale[0] / v.scale[1])
+        isos.append(f)
+    return isos
+
+
+def execute(v):
+    """run the entry point on the scenario; False when the scenario cannot be constructed (conversion refused)"""
+    try:
+        isos = build_isos(v)
+    except MachineryError:
+        raise
+    except Exception:
+        return False
+    v.mag = magnitude(isos[0])
+    v.stored = {"loading": isos[0].data_raw[isos[0].loading_key].to_numpy(dtype=float).copy(),
+                "pressure": isos[0].data_raw[isos[0].pressure_key].to_numpy(dtype=float).copy()}
+    v.outcome, v.res, v.msg = run_entry(v.entry, isos)
+    return True
+
+
+def ask_spec(variants, limit):
+    """AccessPlanOracle: class and expected monomials per run; InvarianceTrace: the verdict per run"""
+    recs = []
+    for v in variants:
+        keys = sorted(v.base) if v.outcome == "ok" else []
+        recs.append({"k": "run", "an": v.an, "role": v.role, "sS0": v.sS0, "sR0": v.sR0, "sS": v.sS, "sR": v.sR, "keys": [k for k in keys]})
+    answers = parallel_oracle("AccessPlanOracle", recs, 600)
+    t_oracle = time.time()
+    trecs = []
+    for v, ans in zip(variants, answers):
+        if not ans["judged"]:
+            raise MachineryError(f"scenario outside the specification's state space: {v.sS} {v.sR}")
+        if ans["cls"] != ans["table"]:
+            raise MachineryError(f"class table of spec/AccessPlan.tla is not exact at {v.an} {v.sS} {v.sR}: {ans['cls']} vs {ans['table']}")
+        q = {"an": v.an, "role": v.role, "variant": v.variant, "scale": list(v.scale or (1, 1)), "sS0": v.sS0, "sR0": v.sR0, "sS": v.sS, "sR": v.sR,
+             "cls": ans["cls"], "outcome": v.outcome, "obs": []}
+        if v.outcome == "ok":
+            for info in ans["keys"]:
+                k = info["key"]
+                vec = {a: e for a, e in info["vec"]}
+                fac = v.atoms.value(vec)
+                if fac is None:
+                    raise MachineryError(f"cannot evaluate the monomial {vec} for {v.names}")
+                if v.variant == "scale":
+                    logfac = info["sexp"] * math.log(v.scale[0] / v.scale[1])
+                else:
+                    logfac = math.log(fac)
+                b = numpy.atleast_1d(numpy.asarray(v.base[k], dtype=float)).ravel()
+                o = numpy.atleast_1d(numpy.asarray(v.res.get(k, numpy.full(0, numpy.nan)), dtype=float)).ravel()
+                if b.shape == o.shape:
+                    idx = pick_idx(len(b), limit)
+                    # always include the element where the two runs differ most from the expected ratio
+                    with numpy.errstate(all="ignore"):
+                        f_eff = fac if v.variant != "scale" else (v.scale[0] / v.scale[1]) ** info["sexp"]
+                        d = numpy.abs(o - b * f_eff)
+                        d[~numpy.isfinite(d)] = numpy.inf if info["kind"] != "log" else 0
+                    if len(b) > limit and info["kind"] == "num":
+                        idx = sorted(set(idx) | {int(numpy.argmax(d))})
+                    eb = enc_arr(b, idx)
+                    q["obs"].append({"key": k, "base": eb, "imax": imax_of(eb), "val": enc_arr(o, idx), "fac": dec_enc(fac), "logfac": dec_enc(logfac),
+                                     "vec": sorted([a, e] for a, e in vec.items())})
+                else:
+                    eb = enc_arr(b, range(len(b)))[:limit]
+                    q["obs"].append({"key": k, "base": eb, "imax": imax_of(eb), "val": enc_arr(o, range(len(o)))[:limit + 1] if len(o) != len(b) else [],
+                                     "fac": dec_enc(fac), "logfac": dec_enc(logfac), "vec": sorted([a, e] for a, e in vec.items())})
+        trecs.append(q)
+    import os
+    if os.environ.get("VERIF_DEBUG_DUMP"):
+        import json
+        with open(os.environ["VERIF_DEBUG_DUMP"], "w") as f:
+            json.dump(trecs, f)
+    verdicts = parallel_oracle("InvarianceTrace", trecs, 400)
+    return answers, trecs, verdicts, t_oracle
+
+
+def signature(v, ans, vd):
+    """(sig, judged clauses) of one run; sig None when nothing is held against it"""
+    cls = ans["cls"]
+    clauses = sorted({b["c"] for b in vd["bad"]})
+    if any(c.startswith("MACHINERY") for c in clauses):
+        raise MachineryError(f"{v.entry}: {clauses}")
+    judged = [c for c in clauses if not c.startswith("not_judged")]
+    if not judged:
+        return None, clauses
+    coarse = sorted({COARSE.get(c, c) for c in judged})
+    sig = {"site": v.an, "plan_class": cls, "observed": "+".join(coarse)}
+    if v.outcome == "raised":
+        sig["exception"] = v.res
+    if cls == "ok":     # not a class the access-plan model predicts: say what was changed
+        bad_core = [b for b in vd["bad"] if b["key"].startswith("core.")]
+        has_core = v.outcome == "ok" and any(k.startswith("core.") for k in v.base)
+        sig.update(changed=f"{v.role}:{v.kind}", stored_loading_magnitude=v.mag,
+                   core_inputs=("differ" if bad_core else "conform") if has_core else "not observed")
+    return sig, clauses
+
+
+def replay(path):
+    """./check C15 --replay replays/C15-....json : rebuild the recorded scenario on the current tree, run the entry point
+    on the fixture as stored and on the changed copy, and let the specification judge the pair again."""
+    import json
+    quiet_pygaps()
+    with open(path) as f:
+        d = json.load(f)
+    print("recorded signature:", json.dumps(d["sig"], sort_keys=True))
+    det = d["detail"]
+    v = Variant()
+    v.entry, v.an, v.names = det["entry"], ENTRY[det["entry"]][0], tuple(det["fixtures"])
+    v.role, v.kind, v.variant, v.to = det["role"], det["kind"], det["variant"], det.get("to")
+    v.scale = tuple(det["scale"]) if det.get("scale") else None
+    v.sS0, v.sR0, v.sS, v.sR = det["start_sample_labels"], det["start_other_labels"], det["sample_labels"], det["other_labels"]
+    isos0 = [fixture(n) for n in v.names]
+    out, v.base, msg = run_entry(v.entry, isos0)
+    if out != "ok":
+        print(f"the entry point no longer runs on the fixture as stored: {v.base}: {msg}")
+        return 2
+    v.atoms = Atoms(isos0[0].adsorbate, isos0[0].temperature, isos0[0].material)
+    if not execute(v):
+        print("the changed copy can no longer be constructed")
+        return 2
+    answers, trecs, verdicts, _ = ask_spec([v], 200)
+    sig, clauses = signature(v, answers[0], verdicts[0])
+    print(f"{v.entry} on {v.names}: sample {lab(v.sS0)} -> {lab(v.sS)}; other {lab(v.sR0)} -> {lab(v.sR)}; variant {v.variant} {v.scale or ''}")
+    print(f"outcome: {v.outcome} {v.res if v.outcome == 'raised' else ''}; access-plan class: {answers[0]['cls']}")
+    for b in verdicts[0]["bad"][:20]:
+        print(f"  {b['key']}: {b['c']} (element {b['i']})")
+    print("signature now:", json.dumps(sig, sort_keys=True) if sig else "none - the specification accepts this run")
+    return 1 if sig else 0
+
+
 def main(tier, seed):
     quiet_pygaps()
     run = Run(PID, tier, seed, "model_checking")
@@ -204,91 +348,18 @@ def main(tier, seed):
                 v = Variant()
                 v.entry, v.an, v.names, v.role, v.kind, v.to, v.variant, v.scale = entry, an, names, role, kind, to, variant, sc
                 v.sS0, v.sR0, v.sS, v.sR, v.base, v.atoms = sS0, sR0, sS, sR, base, atoms
-                try:
-                    isos = []
-                    for i, n in enumerate(names):
-                        tgt, is_changed = (sS, role in ("S", "A")) if i == 0 else (sR, role in ("R", "A"))
-                        f = fixture(n)
-                        if variant == "rep" and is_changed:
-                            own = labels_of(f)
-                            chg = {k: tgt[k] for k in tgt if tgt[k] != (sS0 if i == 0 else sR0)[k]}
-                            f = to_rep(f, dict(own, **chg))
-                            if kind == "product":      # ... and exported / re-imported in the new representation
-                                f = json_roundtrip(f)
-                        elif variant == "json":
-                            f = json_roundtrip(f)
-                        elif variant == "scale" and is_changed:
-                            f = clone(f, scale=sc[0] / sc[1])
-                        isos.append(f)
-                except MachineryError:
-                    raise
-                except Exception as e:      # the conversion itself was refused (a constant is unavailable): nothing to analyse
+                if not execute(v):      # the conversion itself was refused (a constant is unavailable): nothing to analyse
                     run.add("variants_not_constructible")
                     continue
-                v.mag = magnitude(isos[0])
-                v.stored = {"loading": isos[0].data_raw[isos[0].loading_key].to_numpy(dtype=float).copy(),
-                            "pressure": isos[0].data_raw[isos[0].pressure_key].to_numpy(dtype=float).copy()}
-                v.outcome, v.res, v.msg = run_entry(entry, isos)
                 variants.append(v)
             dbg(f"{entry} {names}: {len(plan)} variants, t={time.time() - t_mc:.1f}s")
     run.set(base_runs=nbase)
     t_runs = time.time()
     dbg(f"real runs done: {len(variants)} variants in {t_runs - t_mc:.1f}s")
 
-    # ---- what the specification expects of every run
-    recs = []
-    for v in variants:
-        keys = sorted(v.base) if v.outcome == "ok" else []
-        recs.append({"k": "run", "an": v.an, "role": v.role, "sS0": v.sS0, "sR0": v.sR0, "sS": v.sS, "sR": v.sR, "keys": [k for k in keys]})
-    answers = parallel_oracle("AccessPlanOracle", recs, 600)
-    t_oracle = time.time()
-    dbg(f"plan oracle done in {t_oracle - t_runs:.1f}s")
-
+    # ---- what the specification expects of every run, and its verdict
     limit = 200 if thorough else 16
-    trecs = []
-    for v, ans in zip(variants, answers):
-        if not ans["judged"]:
-            raise MachineryError(f"scenario outside the specification's state space: {v.sS} {v.sR}")
-        if ans["cls"] != ans["table"]:
-            raise MachineryError(f"class table of spec/AccessPlan.tla is not exact at {v.an} {v.sS} {v.sR}: {ans['cls']} vs {ans['table']}")
-        q = {"an": v.an, "role": v.role, "variant": v.variant, "scale": list(v.scale or (1, 1)), "sS0": v.sS0, "sR0": v.sR0, "sS": v.sS, "sR": v.sR,
-             "cls": ans["cls"], "outcome": v.outcome, "obs": []}
-        if v.outcome == "ok":
-            for info in ans["keys"]:
-                k = info["key"]
-                vec = {a: e for a, e in info["vec"]}
-                fac = v.atoms.value(vec)
-                if fac is None:
-                    raise MachineryError(f"cannot evaluate the monomial {vec} for {v.names}")
-                if v.variant == "scale":
-                    logfac = info["sexp"] * math.log(v.scale[0] / v.scale[1])
-                else:
-                    logfac = math.log(fac)
-                b = numpy.atleast_1d(numpy.asarray(v.base[k], dtype=float)).ravel()
-                o = numpy.atleast_1d(numpy.asarray(v.res.get(k, numpy.full(0, numpy.nan)), dtype=float)).ravel()
-                if b.shape == o.shape:
-                    idx = pick_idx(len(b), limit)
-                    # always include the element where the two runs differ most from the expected ratio
-                    with numpy.errstate(all="ignore"):
-                        f_eff = fac if v.variant != "scale" else (v.scale[0] / v.scale[1]) ** info["sexp"]
-                        d = numpy.abs(o - b * f_eff)
-                        d[~numpy.isfinite(d)] = numpy.inf if info["kind"] != "log" else 0
-                    if len(b) > limit and info["kind"] == "num":
-                        idx = sorted(set(idx) | {int(numpy.argmax(d))})
-                    eb = enc_arr(b, idx)
-                    q["obs"].append({"key": k, "base": eb, "imax": imax_of(eb), "val": enc_arr(o, idx), "fac": dec_enc(fac), "logfac": dec_enc(logfac),
-                                     "vec": sorted([a, e] for a, e in vec.items())})
-                else:
-                    eb = enc_arr(b, range(len(b)))[:limit]
-                    q["obs"].append({"key": k, "base": eb, "imax": imax_of(eb), "val": enc_arr(o, range(len(o)))[:limit + 1] if len(o) != len(b) else [],
-                                     "fac": dec_enc(fac), "logfac": dec_enc(logfac), "vec": sorted([a, e] for a, e in vec.items())})
-        trecs.append(q)
-    import os
-    if os.environ.get("VERIF_DEBUG_DUMP"):
-        import json
-        with open(os.environ["VERIF_DEBUG_DUMP"], "w") as f:
-            json.dump(trecs, f)
-    verdicts = parallel_oracle("InvarianceTrace", trecs, 400)
+    answers, trecs, verdicts, t_oracle = ask_spec(variants, limit)
     run.set(wall_breakdown={"tlc_model_checking_and_cover": round(t_mc - t_start, 1), "real_runs": round(t_runs - t_mc, 1),
                             "plan_oracle": round(t_oracle - t_runs, 1), "trace_validation": round(time.time() - t_oracle, 1)})
 
@@ -324,11 +395,8 @@ def main(tier, seed):
         nontrivial = v.variant != "json"
         run.count((v.entry, v.names, v.role, v.kind, repr(sorted(v.sS.items())), repr(sorted(v.sR.items())), v.scale), nontrivial=nontrivial)
         cls = ans["cls"]
-        clauses = sorted({b["c"] for b in vd["bad"]})
-        if any(c.startswith("MACHINERY") for c in clauses):
-            raise MachineryError(f"{v.entry}: {clauses}")
-        judged = [c for c in clauses if not c.startswith("not_judged")]
-        if not judged:
+        sig, clauses = signature(v, ans, vd)
+        if sig is None:
             if clauses:
                 run.add("not_judged_deliberate_guard")
             elif cls not in ("ok",):
@@ -337,17 +405,8 @@ def main(tier, seed):
                     run.note(f"MODEL-DRIFT {v.entry} {v.names} sample {lab(v.sS)} other {lab(v.sR)}: the access-plan model predicts '{cls}' but the recorded "
                              "results conform within tolerance (divergence too small to observe there, or the code no longer matches the transcription)")
             continue
-        coarse = sorted({COARSE.get(c, c) for c in judged})
-        sig = {"site": v.an, "plan_class": cls, "observed": "+".join(coarse)}
-        if v.outcome == "raised":
-            sig["exception"] = v.res
-        if cls == "ok":     # not a class the access-plan model predicts: say what was changed
-            bad_core = [b for b in vd["bad"] if b["key"].startswith("core.")]
-            has_core = v.outcome == "ok" and any(k.startswith("core.") for k in v.base)
-            sig.update(changed=f"{v.role}:{v.kind}", stored_loading_magnitude=v.mag,
-                       core_inputs=("differ" if bad_core else "conform") if has_core else "not observed")
         first = vd["bad"][0]
-        detail = {"entry": v.entry, "fixtures": list(v.names), "sample_labels": v.sS, "other_labels": v.sR, "start_sample_labels": v.sS0, "start_other_labels": v.sR0,
+        detail = {"entry": v.entry, "fixtures": list(v.names), "role": v.role, "kind": v.kind, "variant": v.variant, "to": v.to, "sample_labels": v.sS, "other_labels": v.sR, "start_sample_labels": v.sS0, "start_other_labels": v.sR0,
                   "scale": v.scale, "failing": [{"key": b["key"], "clause": b["c"], "index": b["i"]} for b in vd["bad"][:12]], "message": v.msg}
         if v.outcome == "ok" and first["key"] in v.base:
             ob = next(o for o in q["obs"] if o["key"] == first["key"])
@@ -355,11 +414,13 @@ def main(tier, seed):
         run.violation(sig, detail)
     run.add("traces_validated_against_impl", len(variants))
     run.set(model_drift=drift)
-    mid = len(trecs) // 2
-    if trecs:
-        smp = dict(trecs[mid])
-        smp["obs"] = smp["obs"][:3]
-        run.sample({"entry": variants[mid].entry, "fixtures": variants[mid].names, "record": smp, "verdict": verdicts[mid]})
+    for want in (("area_BET", "material"), ("alpha_s", "pressure"), ("isosteric_enthalpy", "scale"), ("psd_mesoporous", "loading")):
+        for v, q, vd in zip(variants, trecs, verdicts):
+            if (v.an, v.kind) == want and v.outcome == "ok":
+                smp = dict(q)
+                smp["obs"] = [dict(o, base=o["base"][:4], val=o["val"][:4]) for o in smp["obs"][:3]]
+                run.sample({"entry": v.entry, "fixtures": v.names, "record": smp, "verdict": vd})
+                break
     run.set(exhaustive=False, entries=len(scen),
             rule="entry points (" + str(len(scen)) + " incl. option variants; 15 analyses) x fixtures (measured N2/77 K, n-butane, CO2 calorimetry isotherms; synthetic BET/Langmuir/Toth) x "
                  "{sample, reference/further isotherm, all} x {every pressure representation; per loading / material basis the requested unit and "
